@@ -355,6 +355,35 @@ def run_C09(ctx):
     decide(ctx, b, "TraceCodec", CODEC_INVS, t)
 
 
+# ----------------------------------------------------------------------------
+# reification and hostile DAGs
+
+def hgen(ctx, b, what, pairs=True):
+    return gen(ctx, b, "hostile_" + what, ["hostile-gen", "-what", what] + ([] if pairs else ["-pairs=false"]))
+
+
+def run_C14(ctx):
+    b = vlib.build_harness()
+    vlib.model_check(ctx, "Reify", open(vlib.os.path.join(vlib.SPEC, "Reify.cfg")).read(), name="Reify")
+    t = [hgen(ctx, b, "reify"), hgen(ctx, b, "file", pairs=not ctx.quick), hgen(ctx, b, "dir"), hgen(ctx, b, "hamt", pairs=not ctx.quick)]
+    ctx.exhaustive = True
+    decide(ctx, b, "TraceHostile", ["Inv_NoPanic", "Inv_C14_Typed_T", "Inv_C14_Substrate"], t)
+
+
+def run_C13(ctx):
+    b = vlib.build_harness()
+    q = ctx.quick
+    vlib.model_check(ctx, "Reify", open(vlib.os.path.join(vlib.SPEC, "Reify.cfg")).read(), name="Reify")
+    vlib.model_check(ctx, "Codec", cfg_codec(1, 0, False, ["none", "packed1"], MUTS_ALL, export=False), name="Codec_malformed")
+    t = [hgen(ctx, b, "reify"), hgen(ctx, b, "hamt"), hgen(ctx, b, "file"), hgen(ctx, b, "dir")]
+    decide(ctx, b, "TraceHostile", ["Inv_NoPanic", "Inv_C13_Reify", "Inv_C13_Op"], t)
+    # the three decoders on arbitrary bytes: every truncation / bit flips of every TLC-generated stream, random bytes
+    ct = codec_cases(ctx, b, q, fuzzevery=1 if not q else 4)
+    ct.append(gen(ctx, b, "codecx", ["codec-gen", "-count", 2000 if q else 100000, "-seed", ctx.seed]))
+    ctx.exhaustive = False
+    decide(ctx, b, "TraceCodec", ["Inv_NoPanic", "Inv_C13_Fuzz"], ct)
+
+
 def finish(ctx, plan):
     vlib.write_evidence(ctx, LEVEL, plan["rule"], ASSUME_COMMON + plan.get("assume", []))
 
@@ -431,7 +460,28 @@ RULE_CODEC = ("a case is one token stream (TLC-generated presentation of a logic
               "builder-made / UnixTime / Metadata message drawn from VERIF_SEED; non-trivial = at least one known field beyond the "
               "type or a malformation; distinct = case ids")
 
+TECH_HOST = ("explicit TLA+ spec: the reification dispatch (ReifyOps/Reify) model-checked as a total typed function and the decoder "
+             "machine (Codec) with malformations; hand-assembled dag-pb DAGs with one or two adversarial UnixFS defects are "
+             "reified and every node operation run under recover() with step budgets; outcomes validated by TLC against TraceHostile.tla")
+NOTE_HOST = ("'no panic' is observed with recover() and 'bounded work' with step budgets and a wall-clock guard - memory-level facts are "
+             "outside what a TLA+ model holds; the model decides which structures and operations are exercised and the typing of results")
+RULE_HOST = ("a case is a hand-assembled DAG (valid base HAMT / file / directory with one defect or a pair of defects out of ~35/31/9, or a "
+             "representative of a reification input class) x variant {lazy, preload}; all singles and pairs are enumerated; "
+             "non-trivial = the DAG differs from the valid base or belongs to a distinct input class; distinct = case ids")
+
 PLANS = {
+    "C13": P(run_C13, "every single defect and every pair of defects (bitfield longer/shorter/absent, parent/child fanout mismatch, names "
+             "shorter than / equal to the prefix or absent, missing sizes, wrong types, inconsistent or huge block sizes and file "
+             "sizes, links to missing or wrong-typed blocks, invalid shard parameters) applied to valid HAMT / file / directory DAGs, "
+             "reified lazily and with preload and exercised through length, all lookups, both iterators, AsBytes and Seek/Read "
+             "scripts under recover(), step budgets and a wall-clock guard; plus every truncation and bit flips of every "
+             "TLC-generated protobuf stream through the three decoders. TLC validates that every outcome is a value or an error.",
+             rule=RULE_HOST, technique=TECH_HOST, note=NOTE_HOST),
+    "C14": P(run_C14, "TLC checks that the transcribed dispatch is total, typed as C14 states and identical for both variants over the nine "
+             "input classes; ~40 concrete representatives (non-dag-pb kinds, absent/garbage Data, each of the six types with and "
+             "without links, invalid shard parameters, out-of-range types incl. negative) plus every hostile file/dir/HAMT case are "
+             "reified (lazy and preload): result class, kind, substrate identity and byte-identical re-encoding of the substrate "
+             "are validated by TLC (Inv_C14_*).", rule=RULE_HOST, technique=TECH_HOST, note=NOTE_HOST),
     "C09": P(run_C09, "TLC checks on Codec that every conformant presentation (all permutations of up to 2-3 optional fields, the six "
              "block-size presentations incl. one packed run and interleaved unpacked elements, unknown fields of every wire type "
              "at every position, non-minimal varints) is accepted by the transcribed decoder with the schema's meaning, and that "
